@@ -126,7 +126,16 @@ impl StructField {
             _ => unreachable!(),
         };
 
-        size * usize::from(count.get())
+        // Nested arrays of up to 65535 elements reach any size, and the structs of an included
+        // file come here without having been through the struct verifier: an overflow is an
+        // error in the input, not a panic (debug) or a silent wrap (release).
+        size.checked_mul(usize::from(count.get()))
+            .unwrap_or_else(|| {
+                panic!(
+                    "struct member `{}` is too large: its size does not fit the address space",
+                    self.ident
+                )
+            })
     }
 }
 
@@ -183,7 +192,14 @@ pub struct StructInner {
 impl StructInner {
     #[inline]
     pub fn size(&self) -> usize {
-        self.fields.iter().fold(0, |acc, e| acc + e.size())
+        self.fields.iter().fold(0usize, |acc, e| {
+            acc.checked_add(e.size()).unwrap_or_else(|| {
+                panic!(
+                    "struct `{}` is too large: its size does not fit the address space",
+                    self.ident
+                )
+            })
+        })
     }
 
     pub fn objects(&self) -> Vec<(Vec<&Ident>, Option<&str>)> {
